@@ -35,14 +35,22 @@ const ZXST_BLOCK_HEADER_SIZE: usize = 8; // The header for each block
 
 // Process Creator (CRTR) block
 fn process_crtr_block<H: Host>(_: &mut Emulator<H>, block_data: &[u8]) {
+    // Creator info is not used by emulator, malformed one is not an error
+    if block_data.len() < 37 {
+        return;
+    }
     let crtr_name_bytes = &block_data[0..33];
-    let _ = from_utf8(crtr_name_bytes).unwrap();
+    let _ = from_utf8(crtr_name_bytes);
     let _ = u16::from_le_bytes([block_data[33], block_data[34]]);
     let _ = u16::from_le_bytes([block_data[35], block_data[36]]);
 }
 
 // Process ZXSTZ80REGS (Z80R) block
-fn process_z80r_block<H: Host>(emulator: &mut Emulator<H>, block_data: &[u8]) {
+fn process_z80r_block<H: Host>(emulator: &mut Emulator<H>, block_data: &[u8]) -> Result<()> {
+    // 37 bytes of registers, interrupt mode should be one of existing ones
+    if block_data.len() < 37 || block_data[28] > 2 {
+        return Err(SnapshotLoadError::InvalidSZXFile.into());
+    }
     // AF
     emulator
         .cpu
@@ -137,12 +145,16 @@ fn process_z80r_block<H: Host>(emulator: &mut Emulator<H>, block_data: &[u8]) {
     emulator.cpu.set_im(block_data[28]);
 
     // dwCyclesStart
-    emulator.controller.frame_clocks = u32::from_le_bytes([
+    let cycles_start = u32::from_le_bytes([
         block_data[29],
         block_data[30],
         block_data[31],
         block_data[32],
     ]) as usize;
+    if cycles_start >= emulator.settings.machine.specs().clocks_frame {
+        return Err(SnapshotLoadError::InvalidSZXFile.into());
+    }
+    emulator.controller.frame_clocks = cycles_start;
 
     // chHoldIntReqCycles
     // Ignored block_data 33
@@ -170,10 +182,18 @@ fn process_z80r_block<H: Host>(emulator: &mut Emulator<H>, block_data: &[u8]) {
         .cpu
         .regs
         .set_mem_ptr(u16::from_le_bytes([block_data[35], block_data[36]]));
+    Ok(())
 }
 
 // Process ZXSTSPECREGS (SPCR) block
-fn process_spcr_block<H: Host>(emulator: &mut Emulator<H>, machine_id: u32, block_data: &[u8]) {
+fn process_spcr_block<H: Host>(
+    emulator: &mut Emulator<H>,
+    machine_id: u32,
+    block_data: &[u8],
+) -> Result<()> {
+    if block_data.len() < 8 || block_data[0] > 7 {
+        return Err(SnapshotLoadError::InvalidSZXFile.into());
+    }
     // ch7ffd
     if machine_id < ZXST_MID_128K {
         emulator.controller.write_7ffd(0); // Always 0 for 16k and 48k
@@ -196,11 +216,20 @@ fn process_spcr_block<H: Host>(emulator: &mut Emulator<H>, machine_id: u32, bloc
     // Setting the border after the out to 0xfe above because that too
     // sets the border color.
     emulator.controller.border_color = ZXColor::from_bits(block_data[0]);
+    Ok(())
 }
 
 // Process ZXSTAYBLOCK (AY00)
 #[cfg(all(feature = "sound", feature = "ay"))]
-fn process_ay_block<H: Host>(emulator: &mut Emulator<H>, machine_id: u32, block_data: &[u8]) {
+fn process_ay_block<H: Host>(
+    emulator: &mut Emulator<H>,
+    machine_id: u32,
+    block_data: &[u8],
+) -> Result<()> {
+    // flags, current register and 16 registers
+    if block_data.len() < 18 {
+        return Err(SnapshotLoadError::InvalidSZXFile.into());
+    }
     // chFlags
     let flags = block_data[0] as u32;
     if machine_id < ZXST_MID_128K {
@@ -222,10 +251,14 @@ fn process_ay_block<H: Host>(emulator: &mut Emulator<H>, machine_id: u32, block_
         // chAyRegs
         emulator.controller.mixer.ay.set_regs(&block_data[2..]);
     }
+    Ok(())
 }
 
 // Process ZXSTKEYB (KEYB)
-fn process_keyb_block<H: Host>(emulator: &mut Emulator<H>, block_data: &[u8]) {
+fn process_keyb_block<H: Host>(emulator: &mut Emulator<H>, block_data: &[u8]) -> Result<()> {
+    if block_data.len() < 5 {
+        return Err(SnapshotLoadError::InvalidSZXFile.into());
+    }
     // dwFlags
     // ignored for now as only issue 2 is emulated
     let _flags = u32::from_le_bytes([block_data[0], block_data[1], block_data[2], block_data[3]]);
@@ -237,10 +270,14 @@ fn process_keyb_block<H: Host>(emulator: &mut Emulator<H>, block_data: &[u8]) {
     } else {
         emulator.controller.kempston = None;
     }
+    Ok(())
 }
 
 // Process ZXSTMOUSE (AMXM)
-fn process_amxm_block<H: Host>(emulator: &mut Emulator<H>, block_data: &[u8]) {
+fn process_amxm_block<H: Host>(emulator: &mut Emulator<H>, block_data: &[u8]) -> Result<()> {
+    if block_data.is_empty() {
+        return Err(SnapshotLoadError::InvalidSZXFile.into());
+    }
     // chType
     // Only Kempston mouse is supported
     let mouse = block_data[0] as u32;
@@ -253,6 +290,7 @@ fn process_amxm_block<H: Host>(emulator: &mut Emulator<H>, block_data: &[u8]) {
     } else {
         emulator.controller.mouse = None;
     }
+    Ok(())
 }
 
 // Process ZXSTRAMPAGE (RAMP)
@@ -261,6 +299,9 @@ fn process_ramp_block<H: Host>(
     machine_id: u32,
     block_data: &[u8],
 ) -> Result<()> {
+    if block_data.len() < 3 {
+        return Err(SnapshotLoadError::InvalidSZXFile.into());
+    }
     // wFlags
     let flags = u16::from_le_bytes([block_data[0], block_data[1]]) as u32;
 
@@ -276,6 +317,13 @@ fn process_ramp_block<H: Host>(
         };
     }
 
+    let ram_pages_count = match emulator.settings.machine {
+        ZXMachine::Sinclair48K => 3,
+        ZXMachine::Sinclair128K => 8,
+    };
+    if page_num >= ram_pages_count {
+        return Err(SnapshotLoadError::InvalidSZXFile.into());
+    }
     let page_data = emulator.controller.memory.ram_page_data_mut(page_num);
 
     if flags & ZXSTRF_COMPRESSED != 0 {
@@ -287,16 +335,22 @@ fn process_ramp_block<H: Host>(
             let compressed_data: Vec<u8> = block_data[3..].to_vec();
             match decompress_zlib_stream(&compressed_data) {
                 Ok(data) => {
+                    if data.len() < page_data.len() {
+                        return Err(SnapshotLoadError::InvalidSZXFile.into());
+                    }
                     return {
                         page_data.copy_from_slice(&data[..page_data.len()]);
                         Ok(())
-                    }
+                    };
                 }
                 Err(_) => return Err(SnapshotLoadError::InvalidSZXFile.into()),
             }
         }
     } else {
         let uncompressed_data: Vec<u8> = block_data[3..].to_vec();
+        if uncompressed_data.len() < page_data.len() {
+            return Err(SnapshotLoadError::InvalidSZXFile.into());
+        }
         page_data.copy_from_slice(&uncompressed_data[..page_data.len()]);
     }
 
@@ -319,7 +373,7 @@ where
     H: Host,
     A: LoadableAsset + SeekableAsset,
 {
-    let _ = asset.seek(SeekFrom::End(0))?;
+    let file_size = asset.seek(SeekFrom::End(0))?;
     let mut cursor_pos = 0;
     asset.seek(SeekFrom::Start(0))?;
 
@@ -373,8 +427,14 @@ where
             block_header[2],
             block_header[3],
         ];
-        let id_str = from_utf8(id_bytes).unwrap().to_uppercase();
+        // Block with unreadable id is skipped as any other unknown block
+        let id_str = from_utf8(id_bytes).unwrap_or("").to_uppercase();
         cursor_pos += ZXST_BLOCK_HEADER_SIZE;
+
+        // Block can't be bigger than the rest of the file
+        if size as usize > file_size.saturating_sub(cursor_pos) {
+            return Err(SnapshotLoadError::InvalidSZXFile.into());
+        }
 
         // ZXST Block Data
         asset.seek(SeekFrom::Start(cursor_pos))?;
@@ -389,20 +449,20 @@ where
                 process_crtr_block(emulator, &block_data);
             }
             "Z80R" => {
-                process_z80r_block(emulator, &block_data);
+                process_z80r_block(emulator, &block_data)?;
             }
             "SPCR" => {
-                process_spcr_block(emulator, machine_id, &block_data);
+                process_spcr_block(emulator, machine_id, &block_data)?;
             }
             #[cfg(all(feature = "sound", feature = "ay"))]
             "AY\0\0" => {
-                process_ay_block(emulator, machine_id, &block_data);
+                process_ay_block(emulator, machine_id, &block_data)?;
             }
             "KEYB" => {
-                process_keyb_block(emulator, &block_data);
+                process_keyb_block(emulator, &block_data)?;
             }
             "AMXM" => {
-                process_amxm_block(emulator, &block_data);
+                process_amxm_block(emulator, &block_data)?;
             }
             "RAMP" => {
                 process_ramp_block(emulator, machine_id, &block_data)?;
